@@ -88,6 +88,15 @@ CLAIMS["C14"] = dict(
     note="SLSQP convergence (whether a feasible proposal is wrongly rejected) is not modelled - only safety of what is returned.",
     design="8.C14")
 
+CLAIMS["C15"] = dict(
+    technique="Lean 4 theorems about the ASD accept loop, the objective sum and a statement-language model of try/finally brackets, with skeletons regenerated from the Python AST on every run (translator) + correspondence over real optimisations/calibrations with crash injection (modes A, E, F)",
+    text="Proof: asd_invariant/asd_returns_best for every proposal sequence of every length (objective never worse, values inside the box, hard targets kept); objective_is_sum; restores_sound for every crash point, "
+         "applied by `decide` to the skeletons of calibrate / Project.run_optimization / reconcile regenerated from the current source (a skeleton that no longer restores breaks the obligation and yields the crash point as replay); "
+         "works-on-copy at protocol level. Real ASD traces are logged and replayed through the model; objectives re-evaluated independently from Results; caller objects and project.settings snapshotted; an exception is "
+         "injected at the k-th simulation for every k of a reference run.",
+    note="sciris.asd is third-party: only clip/accept rule modelled and checked on logged traces; pso/hyperopt only statically; aliasing below protocol level observed by snapshots.",
+    design="8.C15")
+
 NA_DEFAULT = "not yet claimed: model, theorems and correspondence under construction (see DESIGN.md section 8)"
 NA = {}
 
